@@ -168,11 +168,12 @@ CLAIMS = {
         note="Assumes a gamma variate is >= 0 and finite rewards; float rounding/overflow is outside the sign domain.",
         ref="DESIGN.md §5 C18"),
     "C20": dict(
-        technique="def-use threading analysis of the quoted cost + measure agreement (TransportCost method / slot writer / value closure)",
+        technique="def-use threading analysis of the quoted cost + measure agreement (TransportCost method / slot writer / value closure) + sign/constant-set abstract interpretation",
         text="Narrow clauses: the quoted cost of a position is goal.estimate(activity move) + the route-level estimate, threaded unchanged to every leg, carried "
              "into the success and accumulated by addition for multi jobs; Goal::estimate yields one component per layer in order; the distance objective "
              "estimates with the TransportCost method that also feeds the cached total its fitness reads; single-closure objectives evaluate the same closure "
-             "in estimate and fitness. Not decided: numeric equality, signs, objectives with two independent closures.",
+             "in estimate and fitness; sign/size agreement by abstract interpretation: assigning a job is quoted as −estimator while the fitness sums +estimator, "
+             "opening a tour is quoted as exactly ±1, the change of the tour-count objective. Not decided: numeric equality, objectives with two independent closures.",
         note="Parameter positions of the evaluator chain are a confirmed table.",
         ref="DESIGN.md §5 C20"),
 }
